@@ -208,4 +208,195 @@ theorem hosted_ofFile (F : File) : Hosted (Decls.ofFile F) [] F := by
   rw [ofFile_eq]
   refine ⟨fun sc n => rfl, fun sc n => rfl, fun sc n => rfl, fun sc _ => rfl, Or.inl rfl, fun sc _ => rfl⟩
 
+/-! ### a flat file linked with one module through `import type * as A from "m"` -/
+
+/-- the star imports of a file, in order: (module, local name) -/
+def starImports (f : File) : List (String × String) :=
+  f.filterMap fun | .import m _ (.star a) => some (m, a) | _ => none
+
+def Stmt.isNamespace : Stmt → Bool
+  | .namespace _ _ _ => true
+  | _ => false
+
+/-- the step of `Decls.ofFiles` -/
+def linkStep (mods : List (String × File)) (acc : Decls) (s : Stmt) : Decls :=
+  match s with
+  | .import m _ (.star a) =>
+    match mods.find? (·.1 == m) with
+    | some (_, f) =>
+      Decls.collect (Stmt.sizeList f + 1) [a] f
+        { acc with namespaces := acc.namespaces ++ [[a]], roots := acc.roots ++ [[a]] }
+    | none => acc
+  | _ => acc
+
+theorem ofFiles_eq_foldl (main : File) (mods : List (String × File)) :
+    Decls.ofFiles main mods = main.foldl (linkStep mods) (Decls.ofFile main) := rfl
+
+theorem foldl_linkStep_none (mods : List (String × File)) : ∀ (l : List Stmt) (acc : Decls), starImports l = [] →
+    l.foldl (linkStep mods) acc = acc := by
+  intro l
+  induction l with
+  | nil => intro acc _; rfl
+  | cons s r ih =>
+    intro acc h
+    simp only [List.foldl_cons]
+    cases s with
+    | «import» m ty w =>
+      cases w with
+      | star a => simp [starImports] at h
+      | named _ => exact ih _ (by simpa [starImports] using h)
+      | default _ => exact ih _ (by simpa [starImports] using h)
+    | type _ _ _ _ => exact ih _ (by simpa [starImports] using h)
+    | rawType _ _ _ => exact ih _ (by simpa [starImports] using h)
+    | «namespace» _ _ _ => exact ih _ (by simpa [starImports] using h)
+    | exportList _ _ => exact ih _ (by simpa [starImports] using h)
+    | const _ _ _ _ _ => exact ih _ (by simpa [starImports] using h)
+    | exportDefault _ => exact ih _ (by simpa [starImports] using h)
+    | doc _ => exact ih _ (by simpa [starImports] using h)
+
+theorem foldl_linkStep_one (m A : String) (F : File) : ∀ (l : List Stmt) (acc : Decls), starImports l = [(m, A)] →
+    l.foldl (linkStep [(m, F)]) acc =
+      Decls.collect (Stmt.sizeList F + 1) [A] F
+        { acc with namespaces := acc.namespaces ++ [[A]], roots := acc.roots ++ [[A]] } := by
+  intro l
+  induction l with
+  | nil => intro acc h; simp [starImports] at h
+  | cons s r ih =>
+    intro acc h
+    simp only [List.foldl_cons]
+    cases s with
+    | «import» m' ty w =>
+      cases w with
+      | star a =>
+        simp only [starImports, List.filterMap_cons, List.cons.injEq, Prod.mk.injEq] at h
+        obtain ⟨⟨rfl, rfl⟩, hr⟩ := h
+        rw [foldl_linkStep_none _ r _ hr]
+        simp [linkStep]
+      | named _ => exact ih _ (by simpa [starImports] using h)
+      | default _ => exact ih _ (by simpa [starImports] using h)
+    | type _ _ _ _ => exact ih _ (by simpa [starImports] using h)
+    | rawType _ _ _ => exact ih _ (by simpa [starImports] using h)
+    | «namespace» _ _ _ => exact ih _ (by simpa [starImports] using h)
+    | exportList _ _ => exact ih _ (by simpa [starImports] using h)
+    | const _ _ _ _ _ => exact ih _ (by simpa [starImports] using h)
+    | exportDefault _ => exact ih _ (by simpa [starImports] using h)
+    | doc _ => exact ih _ (by simpa [starImports] using h)
+
+/-- the table of a file with exactly one star import, linked with the file of that module -/
+theorem ofFiles_single (op : File) (m A : String) (F : File) (himp : starImports op = [(m, A)]) :
+    Decls.ofFiles op [(m, F)] =
+      { types := Stmt.declsList [] op ++ Stmt.declsList [A] F,
+        exports := Stmt.exportsList [] op ++ Stmt.exportsList [A] F,
+        namespaces := Stmt.nssList [] op ++ [[A]] ++ Stmt.nssList [A] F,
+        roots := [[A]] } := by
+  rw [ofFiles_eq_foldl, foldl_linkStep_one m A F op _ himp, collect_eq _ _ _ _ (Nat.le_succ _), ofFile_eq]
+  simp
+
+theorem flat_decls_scope : ∀ (op : List Stmt), op.all (fun s => !s.isNamespace) = true →
+    ∀ d ∈ Stmt.declsList [] op, d.scope = [] := by
+  intro op
+  induction op with
+  | nil => intro _ d hd; simp [Stmt.declsList] at hd
+  | cons s r ih =>
+    intro h d hd
+    simp only [List.all_cons, Bool.and_eq_true] at h
+    simp only [Stmt.declsList, List.mem_append] at hd
+    rcases hd with hd | hd
+    · cases s <;> simp_all [Stmt.decls, Stmt.isNamespace]
+    · exact ih h.2 d hd
+
+theorem flat_exports_scope : ∀ (op : List Stmt), op.all (fun s => !s.isNamespace) = true →
+    ∀ x ∈ Stmt.exportsList [] op, x.1 = [] := by
+  intro op
+  induction op with
+  | nil => intro _ d hd; simp [Stmt.exportsList] at hd
+  | cons s r ih =>
+    intro h d hd
+    simp only [List.all_cons, Bool.and_eq_true] at h
+    simp only [Stmt.exportsList, List.mem_append] at hd
+    rcases hd with hd | hd
+    · cases s <;> simp_all [Stmt.exports, Stmt.isNamespace]
+      obtain ⟨a, b, _, rfl⟩ := hd; rfl
+    · exact ih h.2 d hd
+
+theorem flat_nss : ∀ (op : List Stmt), op.all (fun s => !s.isNamespace) = true → Stmt.nssList [] op = [] := by
+  intro op
+  induction op with
+  | nil => intro _; rfl
+  | cons s r ih =>
+    intro h
+    simp only [List.all_cons, Bool.and_eq_true] at h
+    simp only [Stmt.nssList, ih h.2, List.append_nil]
+    cases s <;> simp_all [Stmt.nss, Stmt.isNamespace]
+
+/-- a module linked into a flat file through its only star import `A` is hosted at `[A]` -/
+theorem hosted_ofFiles (op : File) (m A : String) (F : File) (hflat : op.all (fun s => !s.isNamespace) = true)
+    (himp : starImports op = [(m, A)]) : Hosted (Decls.ofFiles op [(m, F)]) [A] F := by
+  rw [ofFiles_single op m A F himp, flat_nss op hflat]
+  have hne : ∀ sc : Scope, ([] : Scope) ≠ [A] ++ sc := by intro sc h; cases h
+  refine ⟨?_, ?_, ?_, ?_, Or.inr (by simp), ?_⟩
+  · intro sc n
+    simp only [Decls.findLocal, List.find?_append]
+    have : (Stmt.declsList [] op).find? (fun x => x.scope == [A] ++ sc && x.name == n) = none := by
+      apply List.find?_eq_none.2
+      intro d hd
+      rw [flat_decls_scope op hflat d hd]
+      simp
+    rw [this, Option.none_or]
+    rfl
+  · intro sc n
+    simp only [List.find?_append]
+    have : (Stmt.declsList [] op).find? (fun x => x.scope == [A] ++ sc && x.name == n && x.exported) = none := by
+      apply List.find?_eq_none.2
+      intro d hd
+      rw [flat_decls_scope op hflat d hd]
+      simp
+    rw [this, Option.none_or]
+  · intro sc n
+    simp only [List.find?_append]
+    have : (Stmt.exportsList [] op).find? (isExportAt ([A] ++ sc) n) = none := by
+      apply List.find?_eq_none.2
+      intro d hd
+      simp only [isExportAt, flat_exports_scope op hflat d hd]
+      simp
+    rw [this, Option.none_or]
+  · intro sc hsc
+    cases sc with
+    | nil => exact absurd rfl hsc
+    | cons a r => simp
+  · intro sc hsc
+    cases sc with
+    | nil => exact absurd rfl hsc
+    | cons a r => simp
+
+/-- in that table the name `A` denotes the linked module, from the top level of the file -/
+theorem ofFiles_resolveNs (op : File) (m A : String) (F : File) (himp : starImports op = [(m, A)]) :
+    (Decls.ofFiles op [(m, F)]).resolveNsAux A (([] : Scope).length + 1) [] = some [A] := by
+  rw [ofFiles_single op m A F himp]
+  simp [Decls.resolveNsAux]
+
+/-- the flat file's own top-level declarations are found first -/
+theorem ofFiles_findLocal_top (op : File) (m A : String) (F : File) (himp : starImports op = [(m, A)])
+    {n : String} {d : Decl} (h : (Stmt.declsList [] op).find? (isDeclAt [] n) = some d) :
+    (Decls.ofFiles op [(m, F)]).findLocal [] n = some d := by
+  rw [ofFiles_single op m A F himp]
+  simp only [Decls.findLocal, List.find?_append]
+  have : (Stmt.declsList [] op).find? (fun x => x.scope == [] && x.name == n) = some d := h
+  rw [this]; rfl
+
+theorem ofFiles_findLocal_top_none (op : File) (m A : String) (F : File) (himp : starImports op = [(m, A)])
+    {n : String} (h : (Stmt.declsList [] op).find? (isDeclAt [] n) = none) :
+    (Decls.ofFiles op [(m, F)]).findLocal [] n = none := by
+  rw [ofFiles_single op m A F himp]
+  simp only [Decls.findLocal, List.find?_append]
+  have h' : (Stmt.declsList [] op).find? (fun x => x.scope == [] && x.name == n) = none := h
+  rw [h', Option.none_or]
+  apply List.find?_eq_none.2
+  intro d hd
+  have hp := declsList_scope F [A] d hd
+  simp only [Bool.and_eq_true, beq_iff_eq, not_and]
+  intro hs
+  rw [hs] at hp
+  exact absurd hp (by simp)
+
 end NitroVerif.Ts
